@@ -278,6 +278,31 @@ func checkC18(c *Ctx) {
 					facts[e] = true
 				}
 			}
+			// the emptiness of an attribute is that of its RESOLVED value: a test made before Resolve says nothing
+			// about what Resolve returns (a LogValuer that resolves to the zero Value under an empty key is an empty
+			// attribute). Unless the resolved value is converted again from scratch, an emptiness test must follow it.
+			if kname == "KindLogValuer" {
+				iRes, iEmptyAfter := -1, -1
+				for i, e := range ev {
+					if e == "resolved" && iRes < 0 {
+						iRes = i
+					}
+					if iRes >= 0 && i > iRes && (strings.HasPrefix(e, "empty=") || strings.HasPrefix(e, "zero=")) {
+						iEmptyAfter = i
+					}
+				}
+				again := false
+				for _, e := range ev {
+					if strings.HasPrefix(e, "ret ") {
+						if cl := anyCall[strings.TrimPrefix(e, "ret ")]; cl != nil && IsCallTo(cl, SlogPath+".convertAttrToField") {
+							again = true
+						}
+					}
+				}
+				if iRes >= 0 && iEmptyAfter < 0 && !again {
+					badEmpty = append(badEmpty, "kind KindLogValuer: the value is resolved but the emptiness test is not made on (or after) the resolved value: "+sq)
+				}
+			}
 			if infeasible {
 				continue
 			}
